@@ -9,7 +9,7 @@
    blank-free attribute names, uint32 / int64 ranges, finite floats, NS_ symbols from the format's
    list, at least one receiver / access node / range.  [norm_file] fills the writer's header
    defaults and reads numeric attribute literals back ("compared by value"). *)
-From Coq Require Import NArith List.
+From Coq Require Import NArith ZArith List.
 From Acme.C08 Require Import DbcAst Chars DbcLex DbcParse DbcWrite Expr ProofsLex ProofsLexPrint ProofsFormat
   ProofsSections ProofsFile ProofsPok ProofsGood ProofsRoundTrip Examples.
 Import ListNotations.
@@ -58,9 +58,13 @@ Print Assumptions parse_write_equiv.
 (* parse_output_expressible: every document the parser returns is expressible (identifier and
    string tokens are well formed by construction of the lexer, numbers are range-checked by the
    conversions, lists the grammar requires non-empty are non-empty); the float oracle must return
-   finite values (strconv.ParseFloat reports +-Inf as an error) *)
-Theorem parse_output_expressible : forall ud prs hex,
-  (forall v b, prs v = Some b -> fin b = true) ->
+   finite values on texts that do not spell a special value ([not_special]: after an optional sign
+   the text does not start with a letter — strconv.ParseFloat returns +-Inf / NaN without error
+   only for inf / infinity / nan; an out-of-range number such as 1e999 is an error); every number
+   token the lexer emits is such a text (proved), and the law is asserted on every token of every
+   case by the harness *)
+Theorem parse_output_expressible : forall ud prs hex, ud_ok ud ->
+  (forall v b, not_special v = true -> prs v = Some b -> fin b = true) ->
   forall t f, parse ud prs hex t = OOk f -> wf_file (peek_digits ud) f.
 Proof. exact ProofsGood.parse_output_expressible. Qed.
 Print Assumptions parse_output_expressible.
@@ -68,16 +72,55 @@ Print Assumptions parse_output_expressible.
 (* parse_write_parse (second half of the property, full): for every accepted text, writing the
    parsed document and parsing it again yields an equivalent document *)
 Theorem parse_write_parse : forall ud fmt prs hex, ud_ok ud -> oracle_ok fmt prs ->
-  (forall v b, prs v = Some b -> fin b = true) ->
+  (forall v b, not_special v = true -> prs v = Some b -> fin b = true) ->
   forall t f, parse ud prs hex t = OOk f ->
   exists f', parse ud prs hex (write fmt hex f) = OOk f' /\ equiv fmt hex f' f.
 Proof. exact ProofsRoundTrip.parse_write_parse. Qed.
 Print Assumptions parse_write_parse.
 
+(* the same without any equivalence: the re-parsed document is exactly [norm_file f], and a
+   second round trip changes nothing more *)
+Theorem parse_write_parse_exact : forall ud fmt prs hex, ud_ok ud -> oracle_ok fmt prs ->
+  (forall v b, not_special v = true -> prs v = Some b -> fin b = true) ->
+  forall t f, parse ud prs hex t = OOk f ->
+  parse ud prs hex (write fmt hex f) = OOk (norm_file fmt hex f) /\
+  parse ud prs hex (write fmt hex (norm_file fmt hex f)) = OOk (norm_file fmt hex f).
+Proof. exact ProofsRoundTrip.parse_write_parse_exact. Qed.
+Print Assumptions parse_write_parse_exact.
+
+(* what the equivalence forgets, exactly: [norm_file f = f] iff the version is not empty, NS_ / BS_ /
+   BU_ are present, and every numeric attribute literal is in read-back form ([val_fixed]: an INT or
+   a string; a HEX only in hex mode; a FLOAT only if its decimal text has a fraction or does not
+   fit int64).  Nothing else is touched: every other section comes back identical. *)
+Theorem norm_file_fixed : forall fmt hex f, norm_file fmt hex f = f <-> file_fixed fmt hex f.
+Proof. exact ProofsRoundTrip.norm_file_fixed. Qed.
+Print Assumptions norm_file_fixed.
+
+(* exact equality does fail in each of these ways (model witnesses, replayed on the Go code by the
+   harness: signatures c08-exact-version / the header and literal-form cases are evaluated under the
+   property's "compared by value" and the writer's documented header completion, see NOTES.md) *)
+Theorem version_exact_refuted :
+  exists f f', parse_text txt_empty_version = OOk f /\ reparse (OOk f) = OOk f' /\
+               f_version f = [] /\ f_version f' = underscore_str /\ f' <> f.
+Proof. exact Examples.version_exact_refuted. Qed.
+Print Assumptions version_exact_refuted.
+
+Theorem header_exact_refuted :
+  exists f f', parse_text txt_no_header = OOk f /\ reparse (OOk f) = OOk f' /\
+               f_ns f = None /\ f_ns f' = Some new_symbols_values /\ f_bs f = None /\ f_bs f' <> None /\ f_bu f = None /\ f_bu f' = Some [].
+Proof. exact Examples.header_exact_refuted. Qed.
+Print Assumptions header_exact_refuted.
+
+Theorem float_retyped_exact_refuted :
+  exists f f', parse_text txt_float_literal = OOk f /\ reparse (OOk f) = OOk f' /\
+               map av_value (f_avs f) = [AVFloat 5] /\ map av_value (f_avs f') = [AVInt 5%Z].
+Proof. exact Examples.float_retyped_exact_refuted. Qed.
+Print Assumptions float_retyped_exact_refuted.
+
 (* the hypotheses are satisfiable: an oracle pair with the two laws, a document over several
    sections (multiplexing, extended mux, every attribute value form) that is expressible, and its
    round trip evaluated in both number modes *)
-Theorem oracle_laws_satisfiable : oracle_ok toy_fmt toy_prs /\ (forall v b, toy_prs v = Some b -> fin b = true).
+Theorem oracle_laws_satisfiable : oracle_ok toy_fmt toy_prs /\ (forall v b, not_special v = true -> toy_prs v = Some b -> fin b = true).
 Proof. exact (conj Examples.toy_oracle_ok Examples.toy_prs_finite). Qed.
 Print Assumptions oracle_laws_satisfiable.
 
